@@ -223,7 +223,7 @@ macro_rules! rd_obj {
 }
 
 macro_rules! mk_bufreader_ew {
-    ($E:ty, $W:ty, $cfg:expr, $bytes:expr) => {{
+    ($E:ty, $W:ty, $cfg:expr, $bytes:expr, $start:expr) => {{
         match ($cfg.backend, $cfg.wrap) {
             ("inf", "none") => {
                 let words: Vec<$W> = bytes_to_words($bytes);
@@ -249,11 +249,19 @@ macro_rules! mk_bufreader_ew {
             }
             ("inf", "count") => {
                 let words: Vec<$W> = bytes_to_words($bytes);
-                let r = CountBitReader::<$E, _>::new(BufBitReader::<$E, _>::new(MemWordReader::new(words)));
+                let mut inner = BufBitReader::<$E, _>::new(MemWordReader::new(words));
+                // the wrapper may be created on a reader that has already consumed bits
+                let mut left = $start;
+                while left > 0 {
+                    let k = left.min(61);
+                    let _ = inner.read_bits(k as usize);
+                    left -= k;
+                }
+                let r = CountBitReader::<$E, _>::new(inner);
                 Box::new(RdObj::<$E, _> {
                     r,
                     pos: Some(|r| r.bit_pos().map_err(|_| ())),
-                    seek: None,
+                    seek: Some(|r, p| r.set_bit_pos(p).map_err(|_| ())),
                     cloner: Some(|r| r.clone()),
                     ior: None,
                     counter: Some(|r| r.bits_read as u64),
@@ -328,15 +336,15 @@ macro_rules! mk_unbuf_e {
 }
 
 macro_rules! mk_reader_e {
-    ($E:ty, $cfg:expr, $bytes:expr) => {
+    ($E:ty, $cfg:expr, $bytes:expr, $start:expr) => {
         if $cfg.kind == "unbuf" {
             mk_unbuf_e!($E, $cfg, $bytes)
         } else {
             match $cfg.w {
-                8 => mk_bufreader_ew!($E, u8, $cfg, $bytes),
-                16 => mk_bufreader_ew!($E, u16, $cfg, $bytes),
-                32 => mk_bufreader_ew!($E, u32, $cfg, $bytes),
-                64 => mk_bufreader_ew!($E, u64, $cfg, $bytes),
+                8 => mk_bufreader_ew!($E, u8, $cfg, $bytes, $start),
+                16 => mk_bufreader_ew!($E, u16, $cfg, $bytes, $start),
+                32 => mk_bufreader_ew!($E, u32, $cfg, $bytes, $start),
+                64 => mk_bufreader_ew!($E, u64, $cfg, $bytes, $start),
                 _ => panic!("bad word size"),
             }
         }
@@ -345,10 +353,16 @@ macro_rules! mk_reader_e {
 
 /// `bytes.len()` must be a multiple of the word size in bytes.
 pub fn make_reader(cfg: &RCfg, bytes: &[u8]) -> Box<dyn DynReader> {
+    make_reader_at(cfg, bytes, 0)
+}
+
+/// `start`: bits the inner reader has consumed before a counting wrapper is put around it
+/// (only meaningful for wrap = "count" over a buffered zero-extended reader)
+pub fn make_reader_at(cfg: &RCfg, bytes: &[u8], start: u64) -> Box<dyn DynReader> {
     let _ = Keep(Box::new(0u8));
     if cfg.le {
-        mk_reader_e!(LE, cfg, bytes)
+        mk_reader_e!(LE, cfg, bytes, start)
     } else {
-        mk_reader_e!(BE, cfg, bytes)
+        mk_reader_e!(BE, cfg, bytes, start)
     }
 }
